@@ -18,6 +18,8 @@ Clauses(e) ==
     [] e.ev = "content_factor" -> ClausesContent(e)
     [] e.ev \in InstEvents     -> ClausesInst(e)
     [] e.ev \in MiscEvents     -> ClausesMisc(e)
+    \* a composite vector (history) appears in a recording only when the code under test hung or crashed while performing it
+    [] e.ev \in {"seq", "chain_encode", "store"} -> [ no_hang_no_panic |-> FALSE ]
     [] OTHER -> [ known_event |-> FALSE ]
 Failed(e) == LET c == Clauses(e) IN { k \in DOMAIN c : ~c[k] }
 RECURSIVE JoinNames(_)
